@@ -523,7 +523,13 @@ def shipped_unit(args):
         for name, t in tables:
             for orientation in ("row", "col"):
                 for _ in range(cfg["shipped_reps"]):
-                    text, _info = gdraw.draw(t, orientation, rng)
+                    try:
+                        text, _info = gdraw.draw(t, orientation, rng)
+                    except gdraw.NotDrawable:
+                        # what was recognised cannot be drawn in the recognizer's own conventions: nothing to compare here
+                        # (the generated drawings below decide); counted so that it is visible
+                        acc.bump("shipped_examples_recognised_but_not_redrawable")
+                        continue
                     drawn.append((name, t, orientation, text))
         recs = run_recog_items(acc, "dbg", [("text", d[3]) for d in drawn], workdir, "redraw", brief=False)
         for (name, t, orientation, text), rec in zip(drawn, recs):
